@@ -17,7 +17,7 @@ BETAS = [0.0, 0.1, -0.25, 0.5, 0.75, -1.0, 1.5, 0.3]
 ROOTS = [[0.5**0.5, 0.5**0.5], [3**-0.5, 3**-0.5, -(3**-0.5)], [0.6, 0.8], [0.2] * 25]  # sum beta^2 = 1 in exact arithmetic, a hair above or below in floating point
 H2 = [None, None, 1.0, 0.5, 0.25, 0.8]
 ENV = [None, None, 0.0, 0.5, 1.0, 2.0]
-PREV = [None, None, 0.0, 0.1, 0.3, 0.5, 0.75, 0.99]
+PREV = [None, None, 0.0, 0.1, 0.3, 0.5, 0.75, 0.99, 0.4999999999999, 0.999999999999]  # the last two: K*n a hair below a whole number (floor, not round)
 
 
 def setup():
@@ -288,6 +288,62 @@ def gen_files(rng, tier):
         yield {"hap_effects": hap_effects, "h2mode": h2mode, "route": route, "data": data, "effects": effects, "extra_lines": rng.sample([j for j in range(nv) if j not in idx], rng.randint(0, nv - k)), "ids": rng.choice([None, None, "subset"]), "samples": rng.choice([None, None, "subset"]), "normalize": rng.random() < 0.6, "K": rng.choice([None, None, 0.3, 0.5]), "R": rng.choice([1001, 1200]) if big_R else rng.randint(1, 3), "pgen": rng.random() < 0.3, "seed": rng.randrange(2**31)}
 
 
+def _plan(case):
+    """what the case fixes beyond its fields: the lines of the .snplist, the --id set, the sample subset"""
+    import random
+
+    ns = len(case["data"])
+    rnd = random.Random(case["seed"])
+    lines = [f"{i}\t{b}" for i, b in case["effects"]] + [f"v{j}\t0.9" for j in case["extra_lines"]]
+    ids = None
+    if case["ids"]:
+        ids = {i for i, _ in case["effects"]}
+    else:
+        lines = lines[: len(case["effects"])]
+        if case["seed"] % 4 == 0 and case.get("h2mode", "one") == "one" and not case.get("hap_effects"):
+            # a fixed share: the effects file names one more variant than the genotype file holds; it has no dosage, so it adds
+            # nothing (its beta must not land on another variant) – the run goes on with the effects that were found
+            lines.insert(rnd.randrange(len(lines) + 1), "absentSNP\t0.37")
+    want = None
+    if case["samples"]:
+        want = set(rnd.sample([f"s{i}" for i in range(ns)], rnd.randint(2, ns)))
+    return {"rnd": rnd, "lines": lines, "ids": ids, "want": want}
+
+
+def model_req_files(case):
+    """raw dosages, a .snplist, a quantitative trait: the genetic component by ID, in exact rationals (Lean `PhenoSim.genetic`)"""
+    if case.get("hap_effects") or case["normalize"] or case["K"] is not None:
+        return {"op": "geneticRaw", "cols": [], "effects": [], "n": 0}
+    plan = _plan(case)
+    ns, nv = len(case["data"]), len(case["data"][0])
+    keep = [i for i in range(ns) if plan["want"] is None or f"s{i}" in plan["want"]]
+    cols = [[f"v{j}", [sum(case["data"][i][j]) for i in keep]] for j in range(nv)]
+    effects = []
+    for l in plan["lines"]:
+        vid, b = l.split("\t")
+        if plan["ids"] is None or vid in plan["ids"]:
+            fb = Fraction(float(b))
+            effects.append([vid, [fb.numerator, fb.denominator]])
+    return {"op": "geneticRaw", "cols": cols, "effects": effects, "n": len(keep)}
+
+
+def model_obs_files(case, resp):
+    if case.get("hap_effects") or case["normalize"] or case["K"] is not None:
+        return {"skipped": True}
+    return {"genetic": [a / b for a, b in resp["genetic"]], "used": resp["used"]}
+
+
+def equal_files(a, b):
+    if b.get("skipped"):
+        return True
+    if "error" in a:
+        return False
+    if len(a["data"]) != len(b["genetic"]):
+        return False
+    # zero noise: every replication is the genetic component itself
+    return all(abs(x - g) <= 1e-9 for row, g in zip(a["data"], b["genetic"]) for x in row)
+
+
 def impl_files(case):
     import random
 
@@ -314,13 +370,8 @@ def impl_files(case):
     else:
         GF.write_vcf_text(d / "g.vcf", samples, variants, data)
         gf = d / "g.vcf"
-    rnd = random.Random(case["seed"])
-    lines = [f"{i}\t{b}" for i, b in case["effects"]] + [f"v{j}\t0.9" for j in case["extra_lines"]]
-    ids = None
-    if case["ids"]:
-        ids = {i for i, _ in case["effects"]}
-    else:
-        lines = lines[: len(case["effects"])]
+    plan = _plan(case)
+    rnd, lines, ids = plan["rnd"], plan["lines"], plan["ids"]
     open(d / "e.snplist", "w").write(("\n".join(lines) + ("\n" if C.plumb(case, "snplist-ending", 2) else "")))
     eff_file = d / "e.snplist"
     if case.get("hap_effects"):
@@ -335,9 +386,7 @@ def impl_files(case):
                     f.write(f"V\t{h['id']}\t{10 * (j + 1)}\t{10 * (j + 1) + 1}\tv{j}\t{'AC'[a]}\n")
         eff_file = d / "e.hap"
         ids = {h["id"] for h in case["hap_effects"][: max(1, len(case["hap_effects"]) - 1)]} if case["ids"] else None
-    want = None
-    if case["samples"]:
-        want = set(rnd.sample(samples, rnd.randint(2, ns)))
+    want = plan["want"]
     h2 = 1.0 if case.get("h2mode", "one") == "one" else None
     if case.get("route", "api") == "api":
         simulate_pt(gf, eff_file, num_replications=case["R"], heritability=h2, prevalence=case["K"], normalize=case["normalize"], samples=want, haplotype_ids=ids, seed=case["seed"] % 2**32, output=d / "o.pheno", log=SD.silent_log())
@@ -401,7 +450,7 @@ def oracle_files(case, obs):
 CHECK = Check(
     id="C09",
     title="simphenotype implements the documented linear model and case/control threshold",
-    theorems=["C09.cases_count", "C09.cases_dominate", "C09.replications_disjoint", "C09.replications_cover", "C09.names_distinct", "C09R.standardize_mean_zero", "C09R.standardize_var_one", "C09R.noise_default", "C09R.noise_given", "C09R.noise_zero_h1", "C09R.noise_nonneg"],
+    theorems=["C09.cases_count", "C09.cases_dominate", "C09.replications_disjoint", "C09.replications_cover", "C09.names_distinct", "C09.absent_effect_adds_nothing", "C09.found_effect_contributes_its_own_dosage", "C09.effect_order_irrelevant", "C09.absent_effect_misattributed_before_fix", "C09R.standardize_mean_zero", "C09R.standardize_var_one", "C09R.noise_default", "C09R.noise_given", "C09R.noise_zero_h1", "C09R.noise_nonneg"],
     imports=("HapModel", "HapReal"),
     build_targets=("HapModel", "HapReal"),
     sections=[
@@ -422,9 +471,12 @@ CHECK = Check(
         ),
         Section(
             name="simulate_pt_files",
-            theorems=["C09.cases_count"],
+            theorems=["C09.cases_count", "C09.absent_effect_adds_nothing", "C09.found_effect_contributes_its_own_dosage", "C09.effect_order_irrelevant", "C09.absent_effect_misattributed_before_fix"],
             gen=gen_files,
             impl=impl_files,
+            model_req=model_req_files,
+            model_obs=model_obs_files,
+            equal=equal_files,
             oracle=oracle_files,
             setup=setup,
             teardown=teardown,
